@@ -148,6 +148,14 @@ def get_rounding_mode(op: Operation, fused_quantize: bool) -> NpuRoundingMode:
     ):
         rounding_mode = NpuRoundingMode.NATURAL
     elif (
+        op.original_type.npu_block_type == NpuBlockType.VectorProduct
+        and op.ifm.dtype == DataType.int16
+        and op.bias is not None
+        and op.bias.dtype == DataType.int64
+    ):
+        # int16 with int64 bias uses the reduced (16 bit) scale, which the reference applies with a single rounding
+        rounding_mode = NpuRoundingMode.NATURAL
+    elif (
         not fused_quantize
         and op.type.is_avgpool_op()
         and op.memory_function == Op.ConcatSliceWrite
